@@ -126,7 +126,7 @@ def boldWitness : Tables :=
                  emptyGlyf := false, cmap := ['c'], hasBest := true, gidH := 1, gidX := 0, stdLig := none },
     gdef := none, gsub := none, gpos := none, kern := none }
 
-theorem boldWitness_decoded : Decoded boldWitness where
+theorem C01_bold_witness_decoded : Decoded boldWitness where
   codecFixed := by decide
   revision := by intro h hh; cases hh; decide
   cffWidths := by intro l hl; cases hl
@@ -136,7 +136,7 @@ IsBold = false, IsRegular = true; `Subfamily()` then says "Bold" because of the 
 second read sets IsBold (known finding C01-bold-word). -/
 theorem C01_fixed_point_full_false : ¬ C01_fixed_point_full := by
   intro h
-  have := h exEnv boldWitness (by decide) boldWitness_decoded
+  have := h exEnv boldWitness (by decide) C01_bold_witness_decoded
   have := congrArg FontMeta.isBold this
   revert this
   decide
